@@ -592,4 +592,312 @@ theorem parseU32_toDec {n : Nat} (h : n < 4294967296) : parseU32 (Digits.toDec n
   simp [hany, hemp, foldl_toDec, h]
 
 
+/-! ### printed tags and selector steps -/
+
+theorem hexDigit_range (u : Bool) (n : Nat) (h : n < 16) :
+    (48 ≤ hexDigit u n ∧ hexDigit u n ≤ 57) ∨ (65 ≤ hexDigit u n ∧ hexDigit u n ≤ 70) ∨
+      (97 ≤ hexDigit u n ∧ hexDigit u n ≤ 102) := by
+  unfold hexDigit
+  cases u <;> simp <;> split <;> omega
+
+theorem mem_hex4 {u : Bool} {n b : Nat} (h : b ∈ hex4 u n) :
+    (48 ≤ b ∧ b ≤ 57) ∨ (65 ≤ b ∧ b ≤ 70) ∨ (97 ≤ b ∧ b ≤ 102) := by
+  simp only [hex4, List.mem_cons, List.not_mem_nil, or_false] at h
+  rcases h with h | h | h | h <;> subst h <;> exact hexDigit_range u _ (Nat.mod_lt _ (by omega))
+
+/-- the bytes of a printed tag: parentheses, comma, hex digits -/
+theorem mem_printTag {t : Tag} {b : Nat} (h : b ∈ printTag t) :
+    b = 0x28 ∨ b = 0x2C ∨ b = 0x29 ∨ (48 ≤ b ∧ b ≤ 57) ∨ (65 ≤ b ∧ b ≤ 70) ∨ (97 ≤ b ∧ b ≤ 102) := by
+  simp only [printTag, tagForm, List.mem_cons, List.mem_append, List.not_mem_nil, or_false] at h
+  rcases h with h | h | h | h | h
+  · omega
+  · have := mem_hex4 h; omega
+  · omega
+  · have := mem_hex4 h; omega
+  · omega
+
+theorem printTag_length (t : Tag) : (printTag t).length = 11 := by
+  simp [printTag, tagForm, hex4]
+
+theorem printTag_getLast (t : Tag) : (printTag t).getLast? = some 0x29 := by
+  simp [printTag, tagForm, hex4]
+
+/-! ### keys inside a selector text -/
+
+/-- a text usable as a selector key for tag `t`: `parse_tag` resolves it to `t`, and it contains no
+`.`, no `[`, and does not end in `]` -/
+structure KeyText (byName : Bytes → Option Tag) (k : Bytes) (t : Tag) : Prop where
+  resolves : dictParseTag byName k = .tag t
+  noDot : 0x2E ∉ k
+  noBracket : 0x5B ∉ k
+  noClose : k.getLast? ≠ some 0x5D
+
+theorem findByte_append {c : Nat} {p : Bytes} (h : c ∉ p) (r : Bytes) :
+    findByte c (p ++ c :: r) = some p.length := by
+  induction p with
+  | nil => simp [findByte]
+  | cons b bs ih =>
+    have hb : b ≠ c := fun e => h (by simp [e])
+    have hbs : c ∉ bs := fun m => h (by simp [m])
+    simp [findByte, hb, ih hbs]
+
+theorem getLast?_append_singleton (l : Bytes) (x : Nat) : (l ++ [x]).getLast? = some x := by
+  simp
+
+/-- `«key»[«item»]` -/
+def nestedText (k : Bytes) (i : Nat) : Bytes := k ++ 0x5B :: (Digits.toDec i ++ [0x5D])
+
+theorem parsePart_nested {byName : Bytes → Option Tag} {k : Bytes} {t : Tag} (hk : KeyText byName k t)
+    {i : Nat} (hi : i < 4294967296) : parsePart byName (nestedText k i) = .ok (.nested t i) := by
+  unfold parsePart nestedText
+  have hlast : (k ++ 0x5B :: (Digits.toDec i ++ [0x5D])).getLast? = some 0x5D := by
+    rw [show k ++ 0x5B :: (Digits.toDec i ++ [0x5D]) = (k ++ 0x5B :: Digits.toDec i) ++ [0x5D] by simp]
+    exact getLast?_append_singleton _ _
+  rw [if_pos hlast, findByte_append hk.noBracket]
+  simp only []
+  have htake : (k ++ 0x5B :: (Digits.toDec i ++ [0x5D])).take k.length = k := by simp
+  have hitem : ((k ++ 0x5B :: (Digits.toDec i ++ [0x5D])).drop (k.length + 1)).take
+      ((k ++ 0x5B :: (Digits.toDec i ++ [0x5D])).length - 1 - (k.length + 1)) = Digits.toDec i := by
+    have : (k ++ 0x5B :: (Digits.toDec i ++ [0x5D])).drop (k.length + 1) = Digits.toDec i ++ [0x5D] := by
+      rw [show k ++ 0x5B :: (Digits.toDec i ++ [0x5D]) = (k ++ [0x5B]) ++ (Digits.toDec i ++ [0x5D]) by simp]
+      rw [List.drop_append_of_le_length (by simp)]
+      simp
+    rw [this]
+    have hl : (k ++ 0x5B :: (Digits.toDec i ++ [0x5D])).length - 1 - (k.length + 1) = (Digits.toDec i).length := by
+      simp; omega
+    rw [hl]; simp
+  rw [htake, hitem, hk.resolves, parseU32_toDec hi]
+
+theorem parsePart_key {byName : Bytes → Option Tag} {k : Bytes} {t : Tag} (hk : KeyText byName k t) :
+    parsePart byName k = .ok (.tag t) := by
+  unfold parsePart
+  rw [if_neg hk.noClose, hk.resolves]
+
+theorem nestedText_noDot {k : Bytes} (h : 0x2E ∉ k) (i : Nat) : 0x2E ∉ nestedText k i := by
+  unfold nestedText
+  intro hm
+  simp only [List.mem_append, List.mem_cons, List.not_mem_nil, or_false] at hm
+  rcases hm with hm | hm | hm | hm
+  · exact h hm
+  · omega
+  · have := toDec_digits i _ hm; simp [Digits.isDigit] at this
+  · omega
+
+
+/-- one step of a selector text: a key, the tag it resolves to, the item index, and whether the
+index is written (`key[item]`) or left out (`key`, item 0) -/
+structure KeyStep where
+  k : Bytes
+  t : Tag
+  item : Nat
+  explicit : Bool
+
+def KeyStep.text (s : KeyStep) : Bytes := if s.explicit then nestedText s.k s.item else s.k
+def KeyStep.step (s : KeyStep) : Step := if s.explicit then .nested s.t s.item else .tag s.t
+
+def KeyStep.Ok (byName : Bytes → Option Tag) (s : KeyStep) : Prop :=
+  KeyText byName s.k s.t ∧ s.item < 4294967296 ∧ (s.explicit = false → s.item = 0)
+
+theorem parsePart_keyStep {byName : Bytes → Option Tag} {s : KeyStep} (h : s.Ok byName) :
+    parsePart byName s.text = .ok s.step := by
+  unfold KeyStep.text KeyStep.step
+  cases he : s.explicit
+  · simp [parsePart_key h.1]
+  · simp [parsePart_nested h.1 h.2.1]
+
+theorem keyStep_noDot {byName : Bytes → Option Tag} {s : KeyStep} (h : s.Ok byName) : 0x2E ∉ s.text := by
+  unfold KeyStep.text
+  cases he : s.explicit
+  · simpa using h.1.noDot
+  · simpa using nestedText_noDot h.1.noDot s.item
+
+theorem parseParts_keys {byName : Bytes → Option Tag} (path : List KeyStep) (leafK : Bytes) (leafT : Tag)
+    (hp : ∀ s ∈ path, s.Ok byName) (hl : KeyText byName leafK leafT) :
+    parseParts byName (path.map KeyStep.text ++ [leafK]) = .ok (path.map KeyStep.step ++ [.tag leafT]) := by
+  induction path with
+  | nil => simp [parseParts, parsePart_key hl]
+  | cons s rest ih =>
+    have := ih (fun x hx => hp x (by simp [hx]))
+    simp only [List.map_cons, List.cons_append, parseParts, parsePart_keyStep (hp s (by simp)), this]
+
+theorem Selector.new_keys (path : List KeyStep) (leafT : Tag)
+    (hp : ∀ s ∈ path, s.explicit = false → s.item = 0) :
+    Selector.new (path.map KeyStep.step ++ [.tag leafT]) = some ⟨path.map (fun s => (s.t, s.item)), leafT⟩ := by
+  induction path with
+  | nil => rfl
+  | cons s rest ih =>
+    have ih' := ih (fun x hx => hp x (by simp [hx]))
+    have hne : rest.map KeyStep.step ++ [Step.tag leafT] ≠ [] := by simp
+    cases hr : rest.map KeyStep.step ++ [Step.tag leafT] with
+    | nil => exact absurd hr hne
+    | cons x xs =>
+      rw [hr] at ih'
+      simp only [List.map_cons, List.cons_append, hr]
+      unfold KeyStep.step
+      cases he : s.explicit
+      · have := hp s (by simp) he
+        simp [Selector.new, ih', this]
+      · simp [Selector.new, ih']
+
+/-- **Selector texts**: keys that resolve (printed tags, other tag forms, dictionary keywords), with
+written or omitted item indices, joined by `.`, parse to the selector of the resolved tags. -/
+theorem parseSelector_keys {byName : Bytes → Option Tag} (path : List KeyStep) (leafK : Bytes) (leafT : Tag)
+    (hp : ∀ s ∈ path, s.Ok byName) (hl : KeyText byName leafK leafT) :
+    parseSelector byName (joinDots (path.map KeyStep.text ++ [leafK])) =
+      .ok ⟨path.map (fun s => (s.t, s.item)), leafT⟩ := by
+  unfold parseSelector
+  rw [splitOn_joinDots (by simp)]
+  · rw [parseParts_keys path leafK leafT hp hl]
+    simp only []
+    rw [Selector.new_keys path leafT (fun s hs => (hp s hs).2.2)]
+  · intro p hpm
+    simp only [List.mem_append, List.mem_map, List.mem_singleton] at hpm
+    rcases hpm with ⟨s, hs, rfl⟩ | rfl
+    · exact keyStep_noDot (hp s hs)
+    · exact hl.noDot
+
+
+/-! ### keywords carried as numbers -/
+
+def isAlnum (b : Nat) : Bool :=
+  (Nat.ble 48 b && Nat.ble b 57) || (Nat.ble 65 b && Nat.ble b 90) || (Nat.ble 97 b && Nat.ble b 122)
+
+/-- bit `b` is set iff byte `b` is alphanumeric -/
+def alnumMask : Nat := 0x7fffffe07fffffe03ff000000000000
+
+/-- `isAlnum` by table lookup (three kernel-accelerated operations) -/
+def alnumBit (b : Nat) : Bool := Nat.beq (Nat.land (Nat.shiftRight alnumMask b) 1) 1
+
+theorem alnumBit_eq : ∀ b, b < 256 → alnumBit b = isAlnum b := by decide +kernel
+
+/-- all base-256 digits of `n` are alphanumeric (arithmetic only: cheap for the kernel) -/
+def kwScan : Nat → Nat → Bool
+  | 0, n => Nat.beq n 0
+  | f + 1, n => bif Nat.beq n 0 then true else alnumBit (n % 256) && kwScan f (n / 256)
+
+theorem bytesOfAux_acc (f n : Nat) (acc : Bytes) : bytesOfAux f n acc = bytesOfAux f n [] ++ acc := by
+  induction f generalizing n acc with
+  | zero => simp [bytesOfAux]
+  | succ f ih =>
+    unfold bytesOfAux
+    by_cases h : n = 0
+    · simp [h]
+    · simp only [h, if_false]
+      rw [ih (n / 256) (n % 256 :: acc), ih (n / 256) [n % 256]]
+      simp
+
+theorem natOfBytes_append (l : Bytes) (x : Nat) : natOfBytes (l ++ [x]) = natOfBytes l * 256 + x := by
+  simp [natOfBytes, List.foldl_append]
+
+theorem natOfBytes_bytesOfAux (f n : Nat) (h : n < 256 ^ f) : natOfBytes (bytesOfAux f n []) = n := by
+  induction f generalizing n with
+  | zero => simp at h; subst h; rfl
+  | succ f ih =>
+    unfold bytesOfAux
+    by_cases h0 : n = 0
+    · simp [h0, natOfBytes]
+    · simp only [h0, if_false]
+      rw [bytesOfAux_acc, natOfBytes_append, ih (n / 256) (by rw [Nat.pow_succ] at h; omega)]
+      omega
+
+theorem kwScan_all (f n : Nat) (h : kwScan f n = true) : (bytesOfAux f n []).all isAlnum = true := by
+  induction f generalizing n with
+  | zero => simp [bytesOfAux]
+  | succ f ih =>
+    unfold kwScan at h
+    unfold bytesOfAux
+    by_cases h0 : n = 0
+    · simp [h0]
+    · have hb : Nat.beq n 0 = false := by
+        cases hh : Nat.beq n 0
+        · rfl
+        · exact absurd (Nat.eq_of_beq_eq_true hh) h0
+      rw [hb, cond_false, Bool.and_eq_true] at h
+      simp only [h0, if_false]
+      rw [bytesOfAux_acc]
+      have hb' := alnumBit_eq (n % 256) (Nat.mod_lt _ (by omega))
+      rw [hb'] at h
+      simp [ih (n / 256) h.2, h.1]
+
+theorem length_bytesOfAux_le (f n k : Nat) (h : n < 256 ^ k) : (bytesOfAux f n []).length ≤ k := by
+  induction f generalizing n k with
+  | zero => simp [bytesOfAux]
+  | succ f ih =>
+    unfold bytesOfAux
+    by_cases h0 : n = 0
+    · simp [h0]
+    · simp only [h0, if_false]
+      rw [bytesOfAux_acc]
+      cases k with
+      | zero => simp at h; omega
+      | succ k =>
+        have := ih (n / 256) k (by rw [Nat.pow_succ] at h; omega)
+        simp; omega
+
+theorem length_bytesOfAux_gt (f n k : Nat) (hf : n < 256 ^ f) (h : 256 ^ k ≤ n) :
+    k < (bytesOfAux f n []).length := by
+  induction f generalizing n k with
+  | zero => simp at hf; subst hf; have := Nat.pow_pos (n := k) (by omega : 0 < 256); omega
+  | succ f ih =>
+    unfold bytesOfAux
+    have hpos := Nat.pow_pos (n := k) (by omega : 0 < 256)
+    have h0 : n ≠ 0 := by omega
+    simp only [h0, if_false]
+    rw [bytesOfAux_acc]
+    cases k with
+    | zero => simp
+    | succ k =>
+      have := ih (n / 256) k (by rw [Nat.pow_succ] at hf; omega) (by rw [Nat.pow_succ] at h; omega)
+      simp; omega
+
+theorem parseTag_err_of_length {s : Bytes} (h : s.length ≠ 11 ∧ s.length ≠ 9 ∧ s.length ≠ 8) :
+    parseTag s = .err .length := by
+  simp [parseTag, h.1, h.2.1, h.2.2]
+
+def isErr : Outcome Tag → Bool
+  | .err _ => true
+  | _ => false
+
+/-- what is needed of a keyword (given as a number) for it to work as a selector key: its text is
+non-empty and alphanumeric, and is not itself a tag form. The byte string is only built for texts
+of 8, 9 or 11 bytes. -/
+def keywordOk (a : Nat) : Bool :=
+  Nat.blt 0 a && Nat.blt a (256 ^ 64) && kwScan 256 a &&
+    (Nat.blt a (256 ^ 7) || (Nat.ble (256 ^ 9) a && Nat.blt a (256 ^ 10)) || Nat.ble (256 ^ 11) a ||
+      isErr (parseTag (bytesOf a)))
+
+theorem keywordOk_spec {a : Nat} (h : keywordOk a = true) :
+    (bytesOf a).all isAlnum = true ∧ bytesOf a ≠ [] ∧ natOfBytes (bytesOf a) = a ∧
+      isErr (parseTag (bytesOf a)) = true := by
+  unfold keywordOk at h
+  simp only [Bool.and_eq_true, Bool.or_eq_true, Nat.blt_eq, Nat.ble_eq] at h
+  obtain ⟨⟨⟨hpos, hlt⟩, hscan⟩, hcase⟩ := h
+  have hlt256 : a < 256 ^ 256 := Nat.lt_of_lt_of_le hlt (Nat.pow_le_pow_right (by omega) (by omega))
+  have hnat := natOfBytes_bytesOfAux 256 a hlt256
+  refine ⟨kwScan_all 256 a hscan, ?_, hnat, ?_⟩
+  · intro he
+    have : natOfBytes (bytesOf a) = 0 := by rw [he]; rfl
+    unfold bytesOf at this
+    omega
+  · rcases hcase with ((h7 | h10) | h12) | he
+    · have := length_bytesOfAux_le 256 a 7 h7
+      rw [show bytesOf a = bytesOfAux 256 a [] from rfl, parseTag_err_of_length (by omega)]; rfl
+    · have h1 := length_bytesOfAux_le 256 a 10 h10.2
+      have h2 := length_bytesOfAux_gt 256 a 9 hlt256 h10.1
+      rw [show bytesOf a = bytesOfAux 256 a [] from rfl, parseTag_err_of_length (by omega)]; rfl
+    · have h2 := length_bytesOfAux_gt 256 a 11 hlt256 h12
+      rw [show bytesOf a = bytesOfAux 256 a [] from rfl, parseTag_err_of_length (by omega)]; rfl
+    · exact he
+
+theorem alnum_facts {b : Bytes} (h : b.all isAlnum = true) :
+    0x2E ∉ b ∧ 0x5B ∉ b ∧ b.getLast? ≠ some 0x5D ∧ b.head? ≠ some 0 := by
+  have hall : ∀ x ∈ b, isAlnum x = true := by simpa using h
+  have no : ∀ v, isAlnum v = false → v ∉ b := fun v hv hm => by rw [hall v hm] at hv; cases hv
+  refine ⟨no _ (by decide), no _ (by decide), ?_, ?_⟩
+  · intro hl
+    exact no 0x5D (by decide) (List.mem_of_getLast? hl)
+  · intro hh
+    exact no 0 (by decide) (List.mem_of_head? hh)
+
+
 end Dicom.TagText
